@@ -51,6 +51,23 @@ def pair_kind(rng):
     return a, b, mode
 
 
+_WCS = []
+
+
+def _fixed_wcs():
+    """one undistorted celestial WCS (TAN, rotated, non-square pixels) for the conversion-commutation clause."""
+    if not _WCS:
+        from astropy.wcs import WCS
+        w = WCS(naxis=2)
+        w.wcs.ctype = ['RA---TAN', 'DEC--TAN']
+        w.wcs.crval = [83.6, 22.0]
+        w.wcs.crpix = [3.0, -2.0]
+        th = math.radians(27.0)
+        w.wcs.cd = [[-2e-4 * math.cos(th), 2.5e-4 * math.sin(th)], [2e-4 * math.sin(th), 2.5e-4 * math.cos(th)]]
+        _WCS.append(w)
+    return _WCS[0]
+
+
 class Check(PropertyCheck):
     id = 'C08'
     lean_targets = ['RegionsVerif.Props.C08', 'RegionsVerif.Bridge.CompoundGlue', 'RegionsVerif.Bridge.InlineGlueC08']
@@ -203,6 +220,27 @@ class Check(PropertyCheck):
             out['rot_a'] = [bool(v) for v in np.ravel(rr.contains(pr))]
             out['rot_b'] = [bool(v) for v in np.ravel(rr2.contains(pr))]
             out['rot_meta_same'] = (rr.meta == reg.meta)
+            # conversion commutes: (a op b).to_sky(wcs) answers like the compound of the converted operands
+            # (same arithmetic on both sides, so the answers are compared exactly), and converts back likewise
+            try:
+                from regions import CompoundSkyRegion
+                w = _fixed_wcs()
+                sk = reg.to_sky(w)
+                sk2 = CompoundSkyRegion(r1.to_sky(w), r2.to_sky(w), reg.operator, reg.meta, reg.visual)
+                sc = pc.to_sky(w)
+                out['sky_cls'] = type(sk).__name__
+                out['sky_operator'] = sk.operator.__name__
+                out['sky_meta_same'] = bool(sk.meta == reg.meta and sk.visual == reg.visual)
+                out['sky_a'] = [bool(v) for v in np.ravel(sk.contains(sc, w))]
+                out['sky_b'] = [bool(v) for v in np.ravel(sk2.contains(sc, w))]
+                bk = sk.to_pixel(w)
+                bk2 = CompoundPixelRegion(sk2.region1.to_pixel(w), sk2.region2.to_pixel(w), reg.operator, reg.meta, reg.visual)
+                out['back_cls'] = type(bk).__name__
+                out['back_meta_same'] = bool(bk.meta == reg.meta and bk.visual == reg.visual)
+                out['back_a'] = [bool(v) for v in np.ravel(bk.contains(pc))]
+                out['back_b'] = [bool(v) for v in np.ravel(bk2.contains(pc))]
+            except NotImplementedError:
+                pass
         else:
             inner, outer = reg._inner_region, reg._outer_region
             out['inner'] = [bool(v) for v in np.ravel(inner.contains(pc))]
@@ -319,6 +357,17 @@ class Check(PropertyCheck):
                     break
             if real['rot_cls'] != 'CompoundPixelRegion' or real['rot_operator'] != real['op_operator'] or not real['rot_meta_same']:
                 bad('rotate_changes_compound', '')
+            if 'sky_a' in real:
+                if real['sky_a'] != real['sky_b']:
+                    i = [k for k in range(len(real['sky_a'])) if real['sky_a'][k] != real['sky_b'][k]][0]
+                    bad('to_sky_does_not_commute', f'point {case["pts"][i]}: converted compound {real["sky_a"][i]}, compound of converted operands {real["sky_b"][i]}')
+                if real['sky_cls'] != 'CompoundSkyRegion' or real['sky_operator'] != real['op_operator'] or not real['sky_meta_same']:
+                    bad('to_sky_changes_compound', f'{real["sky_cls"]} {real["sky_operator"]} meta/visual same: {real["sky_meta_same"]}')
+            if 'back_a' in real:
+                if real['back_a'] != real['back_b']:
+                    bad('to_pixel_does_not_commute', '')
+                if real['back_cls'] != 'CompoundPixelRegion' or not real['back_meta_same']:
+                    bad('to_pixel_changes_compound', f'{real["back_cls"]} meta/visual same: {real["back_meta_same"]}')
             if real.get('mask') is not None:
                 if real['bbox'] != real['bbox_union']:
                     bad('compound_bbox_not_union', f'{real["bbox"]} vs {real["bbox_union"]}')
